@@ -364,16 +364,8 @@ func TestC12Independent(t *testing.T) {
 		kind := rapid.SampledFrom([]lib.StoreKind{lib.KInt, lib.KWord, lib.KCSV}).Draw(rt, "kind")
 		pairs := lib.GenStore(rt, kind, rapid.SampledFrom([]int{0, 2, 5}).Draw(rt, "n"))
 		st := lib.GenPut(rt, kind, pairs, false)
-		// PUT only forbids `value`: key expressions may mention `key` as well
-		kc := &lib.GenCtx{Kind: kind, Pairs: pairs, NoValue: true}
-		for i := range st.Pairs {
-			if rapid.IntRange(0, 2).Draw(rt, "keyInKey") == 0 {
-				st.Pairs[i][0] = lib.Bin("+", kc.GenText(rt, 1), lib.Key())
-				if rapid.Bool().Draw(rt, "keyFirst") {
-					st.Pairs[i][0] = lib.Call("upper", lib.Bin("+", lib.Key(), kc.GenText(rt, 1)))
-				}
-			}
-		}
+		// (key expressions no longer mention `key`: since repair 56 of DESIGN
+		// 8.1 the engine refuses that, as spec.md says; the refusal is C14's)
 		c := &c12IndCase{Stmt: st, Pairs: pairs}
 		lib.Journal("C12", "c12ind", c)
 		msg, nt, labels := checkC12Ind(c)
